@@ -1,11 +1,15 @@
 """Failing-input search for C09 on the real code: expanding Bloom growth bookkeeping."""
 import core
-from search.common import drive, shrink_ops
+from corr.bloom import strategy
+from search.common import drive, keys_pool, shrink_ops
 
 
 def gen(rng):
     est = rng.choice([1, 1, 2, 3, 4, 7])
     keys = ["k%d" % i for i in range(rng.randint(1, 6 * est + 3))]
+    if rng.random() < 0.35:
+        # text beyond ASCII and bytes keys: add and check have to hash a key the same way
+        keys = keys_pool(rng, len(keys) + 1)
     ops = []
     pushes = rng.random() < 0.3
     for _ in range(rng.randint(1, 12 * est + 5)):
@@ -18,15 +22,16 @@ def gen(rng):
             ops.append(("push",))
         else:
             ops.append(("reload",))
-    return {"est": est, "fpr": rng.choice([0.3, 0.1, 0.05, 0.01]), "ops": ops}
+    return {"est": est, "fpr": rng.choice([0.3, 0.1, 0.05, 0.01]), "ops": ops, "strat": rng.choice(["fnv", "fnv", "md5", "custom"])}
 
 
 def check(case):
     from probables import ExpandingBloomFilter
 
     est = case["est"]
+    fn = strategy(case.get("strat", "fnv"))[0]
     try:
-        e = ExpandingBloomFilter(est_elements=est, false_positive_rate=case["fpr"])
+        e = ExpandingBloomFilter(est_elements=est, false_positive_rate=case["fpr"], hash_function=fn)
     except Exception:  # noqa: BLE001 - sizing rejected by the constructor
         return None
     calls = effective = 0
@@ -47,11 +52,13 @@ def check(case):
                 return f"step {step}: an effective add changed the per-filter counts {before} -> {after}"
             if len(after) > len(before) and before[-1] < est:
                 return f"step {step}: grew although the newest filter held {before[-1]} < est_elements {est}"
+            if not e.check(op[1]):
+                return f"step {step}: {op[1]!r} was just added and is reported absent"
         elif op[0] == "push":
             e.push()
             pushed = True
         else:
-            e = ExpandingBloomFilter.frombytes(bytes(e))
+            e = ExpandingBloomFilter.frombytes(bytes(e), hash_function=fn)
         counts = [b.elements_added for b in e._blooms]
         if any(c > est for c in counts):
             return f"step {step}: an internal filter holds {max(counts)} > est_elements {est} insertions"
